@@ -47,6 +47,8 @@ NameTable == <<
   \* message names that are a proper suffix / prefix of the message name FooBar
   [p |-> "Bar",      g |-> "Bar",      s |-> "bar"],
   [p |-> "Foo",      g |-> "Foo",      s |-> "foo"],
+  \* an ordinary message named like the entry messages protoc declares for map fields
+  [p |-> "LogEntry", g |-> "LogEntry", s |-> "log_entry"],
   \* the names protoc gives the two fields of a map entry message, here as names of ordinary fields
   [p |-> "value",    g |-> "Value",    s |-> "value"],
   [p |-> "key",      g |-> "Key",      s |-> "key"],
@@ -95,7 +97,7 @@ Snake(p) == IF p \in PoolNames THEN NameTable[NameRow(p)].s ELSE p
 \* placeholder.  Upper-case letters sort before lower-case ones.
 GoNameOrder == << "AB", "Alpha", "Bad", "Bar", "BranchA", "BranchB", "BranchC", "BranchD", "BranchE", "Cust", "Custs",
   "Dict", "Dur", "Durs", "Empty", "Extra", "Fa", "Fb", "Fc", "Fd", "Fe", "Ff", "Fg", "Fh", "Fi", "Fj", "Fk", "Fl", "Flag", "Flt", "Fm", "Fn", "Fo", "Foo", "FooBar", "Foobar", "Grp", "Grp2", "Inner", "Items", "Key", "Kind",
-  "Leaf", "LowerGrp", "LowerNum", "MaxTTL", "Mid", "Nothing", "Num", "Other", "Outer", "Poison", "Raw", "Root", "Str",
+  "Leaf", "LogEntry", "LowerGrp", "LowerNum", "MaxTTL", "Mid", "Nothing", "Num", "Other", "Outer", "Poison", "Raw", "Root", "Str",
   "Sub", "Sub2", "Subs", "TLSMode", "Tags", "Third", "Value", "When", "Whens", "XYZ", "Zed", "active" >>
 
 Rank(g) == IF \E i \in DOMAIN GoNameOrder : GoNameOrder[i] = g
